@@ -73,7 +73,7 @@ package moq
 //@   loop 1 invariant idx: rangeIndex >= -1
 //@   loop 1 invariant {C20} names-so-far: forall(k, 0 <= k && k <= rangeIndex ==> mocks[k].InterfaceName == ifaceNameOf(namePairs[k]) && mocks[k].MockName == mockNameOf(namePairs[k]))
 //@   loop 2 invariant wf: wfK(m.registry)
-//@   loop 2 invariant jdx: j >= 0
+//@   loop 2 invariant jdx: ix >= 0
 //@   ensures{C19} no-names: len(namePairs) == 0 ==> err != nil && forallEv(i, !effectful(i))
 //@   ensures{C17,C18} writes-only-w: forallEv(i, evKind(i, "io-write") ==> (evIs(i, "io.Writer.Write") && evArg(i, 0) == w) || (evIs(i, "call:template.Template.Execute") && fresh(evArg(i, 1))))
 //@   ensures{C17} write-is-last: forallEv(i, j, evIs(i, "io.Writer.Write") && j > i ==> !effectful(j))
@@ -108,13 +108,13 @@ package moq
 //@   ensures wf-kept: wfK(m.registry)
 //@   loop 1 invariant wf: wfK(m.registry)
 //@   loop 1 invariant scope-ok: scope != nil && scope.registry == m.registry && scope.conflicted != nil && varsNonNil(scope)
-//@   loop 1 invariant idx: i >= 0
-//@   loop 1 invariant params-so-far: forall(k, 0 <= k && k < i ==> allocated(params[k].Var) && params[k].Var.vr == sigOf(f).Params().At(k))
-//@   loop 1 invariant variadic-so-far: forall(k, 0 <= k && k < i ==> (params[k].Variadic ==> sigOf(f).Variadic() && k == sigOf(f).Params().Len() - 1))
+//@   loop 1 invariant idx: ix >= 0
+//@   loop 1 invariant params-so-far: forall(k, 0 <= k && k < ix ==> allocated(params[k].Var) && params[k].Var.vr == sigOf(f).Params().At(k))
+//@   loop 1 invariant variadic-so-far: forall(k, 0 <= k && k < ix ==> (params[k].Variadic ==> sigOf(f).Variadic() && k == sigOf(f).Params().Len() - 1))
 //@   loop 2 invariant wf: wfK(m.registry)
 //@   loop 2 invariant scope-ok: scope != nil && scope.registry == m.registry && scope.conflicted != nil && varsNonNil(scope)
-//@   loop 2 invariant idx: i >= 0
-//@   loop 2 invariant results-so-far: forall(k, 0 <= k && k < i ==> allocated(results[k].Var) && results[k].Var.vr == sigOf(f).Results().At(k) && !results[k].Variadic)
+//@   loop 2 invariant idx: ix >= 0
+//@   loop 2 invariant results-so-far: forall(k, 0 <= k && k < ix ==> allocated(results[k].Var) && results[k].Var.vr == sigOf(f).Results().At(k) && !results[k].Variadic)
 //@   loop 2 invariant params-kept: forall(k, 0 <= k && k < len(params) ==> allocated(params[k].Var) && params[k].Var.vr == sigOf(f).Params().At(k))
 //@   -- C12: parameters and results of one method are allocated in ONE scope (the loop invariants scope-ok
 //@   -- name it), so that result names are checked against parameter names and imports rename both
@@ -133,8 +133,8 @@ package moq
 //@   ensures wf-kept: wfK(m.registry)
 //@   loop 1 invariant wf: wfK(m.registry)
 //@   loop 1 invariant scope-ok: scope != nil && scope.registry == m.registry && scope.conflicted != nil && varsNonNil(scope)
-//@   loop 1 invariant idx: i >= 0
-//@   loop 1 invariant so-far: forall(k, 0 <= k && k < i ==> allocated(tpd[k].Var) && tpd[k].Var.vr.Name() == tparams.At(k).Obj().Name() && tpd[k].Var.vr.Type() == tparams.At(k).Constraint())
+//@   loop 1 invariant idx: ix >= 0
+//@   loop 1 invariant so-far: forall(k, 0 <= k && k < ix ==> allocated(tpd[k].Var) && tpd[k].Var.vr.Name() == tparams.At(k).Obj().Name() && tpd[k].Var.vr.Type() == tparams.At(k).Constraint())
 //@   ensures none: tparams == nil ==> len(tpd) == 0
 //@   ensures same-count: tparams != nil ==> len(tpd) == tparams.Len()
 //@   ensures same-order-names-constraints: tparams != nil ==> forall(k, 0 <= k && k < len(tpd) ==> tpd[k].Var != nil && tpd[k].Var.vr.Name() == tparams.At(k).Obj().Name() && tpd[k].Var.vr.Type() == tparams.At(k).Constraint())
@@ -143,8 +143,8 @@ package moq
 //@   props C09
 //@   safety C19
 //@   requires typeParam != nil && isType(typeParam.Type().Underlying(), *types.Interface)
-//@   loop 1 invariant idx: j >= 0
-//@   loop 1 invariant skipped-so-far: forall(k, 0 <= k && k < j ==> !isType(ifaceOf(typeParam).EmbeddedType(k), *types.Basic) && !isType(ifaceOf(typeParam).EmbeddedType(k), *types.Union))
+//@   loop 1 invariant idx: ix >= 0
+//@   loop 1 invariant skipped-so-far: forall(k, 0 <= k && k < ix ==> !isType(ifaceOf(typeParam).EmbeddedType(k), *types.Basic) && !isType(ifaceOf(typeParam).EmbeddedType(k), *types.Union))
 //@   ensures none: (forall(k, 0 <= k && k < ifaceOf(typeParam).NumEmbeddeds() ==> !isType(ifaceOf(typeParam).EmbeddedType(k), *types.Basic) && !isType(ifaceOf(typeParam).EmbeddedType(k), *types.Union))) ==> t == nil
 //@   ensures first-basic-or-union: t != nil ==> exists(k, 0 <= k && k < ifaceOf(typeParam).NumEmbeddeds() && ((isType(ifaceOf(typeParam).EmbeddedType(k), *types.Basic) && t == ifaceOf(typeParam).EmbeddedType(k)) || (isType(ifaceOf(typeParam).EmbeddedType(k), *types.Union) && t == as(ifaceOf(typeParam).EmbeddedType(k), *types.Union).Term(0).Type())))
 //@ define ifaceOf(tp) = as(tp.Type().Underlying(), *types.Interface)
